@@ -269,6 +269,7 @@ impl Check for DnsResolution {
             client_macs.push(m.protocol::<Pci>().unwrap().mac_addresses().next().unwrap());
             machines.push(m);
         }
+        let _release = ReleaseOnDrop(machines.clone());
         let (st, panics): (Option<_>, _) = run_virtual(async { run_internet_with_timeout(&machines, Duration::from_secs(30)).await });
         let frames = wire.snapshot();
         let res = results.lock().unwrap().clone();
